@@ -8,7 +8,7 @@ for name in sorted(os.listdir(os.path.join(HERE, 'seeded'))):
     if not os.path.exists(mp):
         continue
     m = json.load(open(mp))
-    if m.get('benign'):
+    if m.get('benign') or m.get('cross'):
         continue
     notes = m.get('needs', '')
     first = ''
@@ -53,3 +53,29 @@ if brows:
     print('| behaviour-preserving change | what it does | suite passes, stress digest identical | C01..C20 quick |')
     print('|---|---|---|---|')
     print('\n'.join(brows))
+
+
+# cross-property changes: the author was given all 20 properties and one part of the source
+xrows = []
+for name in sorted(os.listdir(os.path.join(HERE, 'seeded'))):
+    mp = os.path.join(HERE, 'seeded', name, 'meta.json')
+    if not os.path.exists(mp):
+        continue
+    m = json.load(open(mp))
+    if not m.get('cross'):
+        continue
+    first = ''
+    for l in m.get('needs', '').splitlines():
+        l = l.strip(' #*-')
+        if len(l) > 20 and not l.upper().startswith('VIOLATES'):
+            first = l
+            break
+    al = m.get('alarms') or {}
+    det = sorted(k for k, v in al.items() if v.get('exit') == 1)
+    xrows.append('| {} | {} | {} | {} |'.format(name, first[:150].replace('|', '/'), m.get('claimed', '').replace('VIOLATES:', '').strip(),
+                                           ', '.join(det) if det else 'MISSED by all 20'))
+if xrows:
+    print()
+    print('| cross-property change | what it does | properties its author names | quick checks that raise an alarm |')
+    print('|---|---|---|---|')
+    print('\n'.join(xrows))
